@@ -381,7 +381,7 @@ pub fn run_c17_shape<S: Shape>(run: &mut Run, shape_idx: u64, desc: &'static str
     guarded(acc, "c17", 17, shape_idx, |acc| {
         // (iii) evaluation per C01 on the (remote) target: model oracle on 3 keyframe sets
         for _ in 0..3 {
-            let spec = gen_tl(&mut r, kinds, &GenOpts::default());
+            let spec = gen_tl(&mut r, kinds, &GenOpts { shuffle: true, ..GenOpts::default() });
             let subst: Option<Vec<f64>> = if r.chance(1, 2) { Some(S::KINDS.iter().map(|k| gen_value(&mut r, *k)).collect()) } else { None };
             crate::checks::c01::check_timeline::<S>(&spec, subst.as_deref(), acc, 17, shape_idx, verbose, &mut r);
             // (iv) accessors return what the builder was given
